@@ -306,6 +306,36 @@ func newDemuxer(r io.Reader, run demuxRun, opts ...func(*astits.Demuxer)) *astit
 	return astits.NewDemuxer(context.Background(), r, opts...)
 }
 
+func newDemuxerCtx(ctx context.Context, r io.Reader, run demuxRun, opts ...func(*astits.Demuxer)) *astits.Demuxer {
+	switch {
+	case run.PSize == 0:
+		opts = append(opts, astits.DemuxerOptPacketSize(188))
+	case run.PSize > 0:
+		opts = append(opts, astits.DemuxerOptPacketSize(run.PSize))
+	}
+	return astits.NewDemuxer(ctx, r, opts...)
+}
+
+// flakySeekReader: a seekable reader whose Read fails once (not an end of file) when it reaches failAt; sound before and after
+type flakySeekReader struct {
+	r      *bytes.Reader
+	failAt int64
+	fired  bool
+}
+
+func (f *flakySeekReader) Read(p []byte) (int, error) {
+	pos, _ := f.r.Seek(0, io.SeekCurrent)
+	if !f.fired && pos >= f.failAt {
+		f.fired = true
+		return 0, errInjected
+	}
+	if !f.fired && pos+int64(len(p)) > f.failAt {
+		p = p[:f.failAt-pos]
+	}
+	return f.r.Read(p)
+}
+func (f *flakySeekReader) Seek(off int64, whence int) (int64, error) { return f.r.Seek(off, whence) }
+
 // runDemux (C02): the real Demuxer over the built stream with a byte-counting reader
 func runDemux(sc *streamScenario, rec *recorder) {
 	bs := buildStream(sc.Units, sc.Pkts, sc.PMTPIDs, sc.Seed, sc.Complete)
@@ -961,6 +991,128 @@ func runRewindOn(sc *streamScenario, sid string, bs *builtStream, rec *recorder)
 			e["run"] = run
 			rec.ev(e)
 		})
+	}
+	// three more histories, each with its own reference run (variant r = -2) recorded just before it
+	{
+		run := 1000
+		ref := func(api string, f func(emit func(M))) {
+			rec.ev(M{"ev": "variant", "r": -2, "k": -1, "api": api, "again": -1})
+			f(func(e M) {
+				e["run"] = -2
+				rec.ev(e)
+			})
+		}
+		drainN := func(dmx *astits.Demuxer, n int, emit func(M)) { // a bounded look at a demuxer that will not reach the end of its input
+			for c := 0; c < n; c++ {
+				var d *astits.DemuxerData
+				var err error
+				if p := safeCall(func() { d, err = dmx.NextData() }); p != nil {
+					emit(M{"ev": "derr", "panic": true, "msg": fmt.Sprint(p)})
+					continue
+				}
+				if err != nil {
+					emit(M{"ev": "derr", "panic": false, "msg": err.Error()})
+					continue
+				}
+				emit(deliverEvent(d))
+			}
+			emit(M{"ev": "eof", "calls": n})
+		}
+		drainPackets := func(dmx *astits.Demuxer, emit func(M)) {
+			for c := 0; c < bound; c++ {
+				var p *astits.Packet
+				var err error
+				if pn := safeCall(func() { p, err = dmx.NextPacket() }); pn != nil {
+					emit(M{"ev": "derr", "panic": true, "msg": fmt.Sprint(pn)})
+					continue
+				}
+				if err == astits.ErrNoMorePackets {
+					break
+				}
+				if err != nil {
+					emit(M{"ev": "derr", "panic": false, "msg": err.Error()})
+					continue
+				}
+				emit(M{"ev": "deliver", "dg": hdrDigest(p), "pid": int(p.Header.PID)})
+			}
+			emit(M{"ev": "eof"})
+		}
+		// (1) the reader fails once (not an end of file) somewhere before the Rewind; after the Rewind the reader is sound: a fresh pass
+		{
+			run++
+			failAt := rg.intn(len(bs.bytes) + 1)
+			ref("data", func(emit func(M)) {
+				drainData(newDemuxer(bytes.NewReader(bs.bytes), sc.Run), bound, func() int { return 0 }, emit)
+			})
+			fr := &flakySeekReader{r: bytes.NewReader(bs.bytes), failAt: int64(failAt)}
+			dmx := newDemuxer(fr, sc.Run)
+			for c := 0; c < bound && !fr.fired; c++ {
+				safeCall(func() { dmx.NextData() })
+			}
+			rec.ev(M{"ev": "variant", "r": run, "k": failAt, "api": "after-reader-error", "again": -1})
+			var n int64
+			var err error
+			pn := safeCall(func() { n, err = dmx.Rewind() })
+			rec.ev(M{"ev": "rewind", "run": run, "n": int(n), "err": errClass(err), "panic": pn != nil})
+			drainData(dmx, bound, func() int { return 0 }, func(e M) {
+				e["run"] = run
+				rec.ev(e)
+			})
+		}
+		// (2) the context is cancelled between a NextData call and the Rewind: Rewind itself is unaffected, what was parsed before it is gone,
+		// and the demuxer then answers like a fresh one whose context is done
+		{
+			run++
+			k := rg.intn(maxK + 1)
+			ref("data", func(emit func(M)) {
+				cctx, cancel := context.WithCancel(context.Background())
+				cancel()
+				drainN(newDemuxerCtx(cctx, bytes.NewReader(bs.bytes), sc.Run), 5, emit)
+			})
+			cctx, cancel := context.WithCancel(context.Background())
+			dmx := newDemuxerCtx(cctx, bytes.NewReader(bs.bytes), sc.Run)
+			for c := 0; c < k; c++ {
+				safeCall(func() { dmx.NextData() })
+			}
+			cancel()
+			rec.ev(M{"ev": "variant", "r": run, "k": k, "api": "context-cancelled-before-rewind", "again": -1})
+			var n int64
+			var err error
+			pn := safeCall(func() { n, err = dmx.Rewind() })
+			rec.ev(M{"ev": "rewind", "run": run, "n": int(n), "err": errClass(err), "panic": pn != nil})
+			drainN(dmx, 5, func(e M) {
+				e["run"] = run
+				rec.ev(e)
+			})
+		}
+		// (3) NextData calls, Rewind, then the packets one by one (a stream with an adaptation-only and a transport-error packet in it):
+		// every packet comes back, as from a fresh demuxer read with NextPacket
+		{
+			run++
+			var s2 []byte
+			mid := (len(bs.pkts) / 2) * 188
+			s2 = append(s2, bs.bytes[:mid]...)
+			for _, kk := range []string{"afonly", "tei", "null"} {
+				f := pktSpec{PID: 0x1abc, K: kk, CC: rg.intn(16)}
+				s2 = append(s2, packetBytes(&f, nil, rg)...)
+			}
+			s2 = append(s2, bs.bytes[mid:]...)
+			ref("packet", func(emit func(M)) { drainPackets(newDemuxer(bytes.NewReader(s2), sc.Run), emit) })
+			dmx := newDemuxer(bytes.NewReader(s2), sc.Run)
+			k := rg.intn(maxK + 1)
+			for c := 0; c < k; c++ {
+				safeCall(func() { dmx.NextData() })
+			}
+			rec.ev(M{"ev": "variant", "r": run, "k": k, "api": "data-then-packets", "again": -1})
+			var n int64
+			var err error
+			pn := safeCall(func() { n, err = dmx.Rewind() })
+			rec.ev(M{"ev": "rewind", "run": run, "n": int(n), "err": errClass(err), "panic": pn != nil})
+			drainPackets(dmx, func(e M) {
+				e["run"] = run
+				rec.ev(e)
+			})
+		}
 	}
 	// a reader that cannot seek (explicit packet size: detection on such a reader loses packets by design): Rewind leaves it where it is
 	// and the demuxer goes on with the rest of the input as a fresh one would - no residue of what was seen before
